@@ -250,12 +250,23 @@ class World:
     # ---------------------------------------------------------------- caches
     def drop_caches(self):
         """What a new process would not have (the 'restart')."""
-        _tzmod._tz_cache.clear()
-        _tzmod._timezones = None
-        _ltz._local_timezone = None
-        for loc in list(_locmod.Locale._cache.values()):
-            loc._key_cache.clear()
-        _locmod.Locale._cache.clear()
+        # by private name, each guarded: after a refactoring that renames one of them the restart is
+        # less cold (the cold-process oracle, forked before pendulum did anything, covers that), never
+        # a harness error
+        c = getattr(_tzmod, "_tz_cache", None)
+        if hasattr(c, "clear"):
+            c.clear()
+        if hasattr(_tzmod, "_timezones"):
+            _tzmod._timezones = None
+        if hasattr(_ltz, "_local_timezone"):
+            _ltz._local_timezone = None
+        lc = getattr(_locmod.Locale, "_cache", None)
+        if isinstance(lc, dict):
+            for loc in list(lc.values()):
+                kc = getattr(loc, "_key_cache", None)
+                if hasattr(kc, "clear"):
+                    kc.clear()
+            lc.clear()
         # DifferenceFormatter holds its own default Locale('en') object
         try:
             pendulum.helpers.difference_formatter._locale._key_cache.clear()
